@@ -4,7 +4,8 @@
     bisect-and-early-exit shape misses shadowed genes); binding: every layout of <= 3 genes over the universe
     (sampled for 4) x every query span x with_overlapping through Record.get_cds_features_within_location;
     Genes_Trace decides membership and order.
-    Build-order half (area membership, cds.region, defining genes under all interleavings): see RecordSM (C06).
+    Build-order half (area membership, cds.region, defining genes whatever the order of adding genes and areas):
+    histories from props/c06.build_order_cases replayed on a real Record, membership clauses of RecordSM_Trace.
 """
 
 import itertools
@@ -177,6 +178,15 @@ def run(ctx):
                           "call": _call(case, query), "observed": by_event[ident]["queries"][int(qidx) - 1]["ret"],
                           "features": _features(case, query), "sampled": case["sampled"]})
         del events, by_event
+    # build-order half: histories in which genes are added before / after / between the areas and region creation,
+    # replayed on a real Record; RecordSM_Trace decides the membership clauses for every logged step
+    from . import c06  # pylint: disable=import-outside-toplevel
+    order_cases, _ = c06.build_order_cases(rng, 1200 if ctx.quick else 40000, 10 ** 7)
+    membership = ("protocluster_lists_contained_genes", "defining_genes_are_core_annotated_genes_in_core",
+                  "subregion_lists_contained_genes", "candidate_lists_contained_genes", "region_lists_contained_genes",
+                  "gene_points_to_the_region_containing_it", "no_exception", "genes_as_added")
+    ctx.notes["build_order_calls_validated"] = c06.validate_cases(ctx, order_cases, only_clauses=membership)
+    ctx.notes["build_order_histories"] = len(order_cases)
     lookups = sum(len(case["queries"]) for case in cases)
     ctx.evaluations = lookups
     ctx.notes["lookups"] = lookups
